@@ -9,7 +9,8 @@ RULE = ("A: TLC grid - truncated headers: 8 SCIDs x 2 x 5 VCIDs x 3 MAP IDs; pri
         "zones x insert zone x OCF x FECF 0/2/4 octets: round-trip, length and frame-length-field, every strict prefix "
         "refused, trailing octets ignored; 13 managed-parameter variants per sample frame; the 8 rules x 2 frame types matrix. "
         "B: recorded calls validated by TLC - random headers over the full ID / 56-bit VCF range, random frames with data "
-        "zones up to 2 000 octets (thorough: up to the 65 536-octet frame limit), decoded with matching and with randomly "
+        "zones up to 2 000 octets (thorough: up to the 65 536-octet frame limit), frames of exactly 65 535 / 65 536 octets per "
+        "frame type with and without FECF in every tier, decoded with matching and with randomly "
         "perturbed managed parameters. distinct = distinct (op, args).")
 
 
@@ -74,6 +75,17 @@ def events(ctx):
     for _ in range(ctx.q(20000, 1000000)):
         yield record("uslp.hdr.rt", {"h": rnd_hdr(rng, bad=rng.random() < 0.1), "sfx": [rng.randrange(256)] * rng.choice([0, 0, 5])})
     from ..ops_uslp import mk_frame, _ftype
+    # frames of exactly 65 536 octets (frame length field 0xFFFF) and one octet less, per frame type, with / without FECF
+    for ftype, rule in (("fixed", 0), ("var", 3), ("var", 7)):
+        for fecf in ([], [[0xAB, 0xCD]]):
+            for total in (65535, 65536):
+                f = {"hdr": rnd_hdr(rng, 0), "iz": [], "rule": rule, "upid": 5, "ptr": [0] if ftype == "fixed" else [],
+                     "tfdz": [], "ocf": [], "fecf": fecf}
+                f["hdr"]["flen"] = 0
+                f["hdr"]["ocf"] = 0
+                base = 7 + f["hdr"]["vcflen"] + (3 if ftype == "fixed" else 1) + (2 if fecf else 0)
+                f["tfdz"] = [(i * 7 + total) & 255 for i in range(total - base)]
+                yield record("uslp.frame.rt", {"f": f, "ftype": ftype})
     for _ in range(ctx.q(12000, 400000)):
         f, ftype = rnd_frame(rng, ctx.thorough)
         yield record("uslp.frame.rt", {"f": f, "ftype": ftype})
